@@ -12,7 +12,7 @@ ON = [icontract.InvariantCheckEvent.CALL, icontract.InvariantCheckEvent.SETATTR,
 STEPS = ["subclass_plain", "subclass_override_pre_post", "subclass_own_invariant", "subclass_override_snapshot_post",
          "class_two_bases", "decorate_fresh_function", "decorate_same_bare_again", "subclass_override_bare",
          "class_with_mixin_own_invariant", "subclass_property_new_setter", "subclass_property_new_getter",
-         "posthoc_require_on_bare_override", "subclass_aliases_base_function"]
+         "posthoc_require_on_bare_override", "subclass_aliases_base_function", "two_bases_property_accessor_reuse"]
 
 
 class World:
@@ -133,6 +133,20 @@ class World:
                 other = icontract.DBCMeta(self.fresh_name("Other"), (icontract.DBC,), {"m": (lambda self, x: "other")})
                 n = self.fresh_name("R")
                 classes.append(icontract.DBCMeta(n, (base, other), {"m": base.m}))
+            elif what == "two_bases_property_accessor_reuse":
+                # class C(Gauge, base) with a fresh base Gauge that has a contracted property p of its own; C re-uses the
+                # getter of ``base`` as it is and supplies a new setter
+                n = self.fresh_name("Gauge")
+
+                def g_get(self: Any) -> Any:
+                    return 3
+                gauge = icontract.DBCMeta(n, (icontract.DBC,), {"p": property(
+                    icontract.ensure(self.cond(n + ".p.post", ("result",)), error=self.err(n + ".p.post"))(g_get))})
+
+                def new_set2(self: Any, value: Any) -> None:
+                    return None
+                order = (gauge, base) if k % 2 == 0 else (base, gauge)
+                classes.append(icontract.DBCMeta(self.fresh_name("C"), order, {"p": base.p.setter(new_set2)}))
             elif what == "decorate_fresh_function":
                 n = self.fresh_name("g")
 
